@@ -578,6 +578,7 @@ class Interp3(Interp2):
                 m0 = self.int_term(self.eval_clause_value(spec.decreases, ghost))
             if kind == 'for':
                 self.assign_target(n.target, elem(kterm))
+            self.run_hints(spec, 'body', ghost)
             try:
                 self.exec_block(n.body)
             except BreakSig:
